@@ -304,3 +304,79 @@ def mk_series_he(cls_a, cls_b, tier='quick'):
 _add(mk_series_he('IndexDate', 'IndexSecond'))
 _add(mk_series_he('IndexDate', 'IndexNanosecond'))
 _add(mk_series_he('IndexSecond', 'IndexNanosecond', tier='thorough'))
+
+
+# ------------------------------------------------------------------------------------------------
+# 7. Frame.equals over column KINDS and every block layout: value-equal cells held as int64 or float64 (with NaN)
+
+def _lays_for(kinds):
+    out = []
+    for lay in layouts.compositions(len(kinds)):
+        j, ok = 0, True
+        for nd, w in lay:
+            if len(set(kinds[j:j + w])) > 1:
+                ok = False
+            j += w
+        if ok:
+            out.append(lay)
+    return out
+
+
+def body_equals_kinds(env, ka, kbsel, diff, compare_dtype, nanmode, skipna):
+    from vf import rt
+    ka = concretize(ka, 0, 7)
+    kb = ka ^ (0, 1, 4)[concretize(kbsel, 0, 2)]      # same kinds / first column differs / last column differs
+    diff = 0 if diff else 3                           # a differing cell in (1, 0), or none
+    nanmode = concretize(nanmode, 0, 2)               # no NaN / NaN on the left only / NaN on both sides
+    nan_a, nan_b = nanmode >= 1, nanmode == 2
+    compare_dtype, skipna = bool(compare_dtype), bool(skipna)
+
+    def run():
+        sf = env.sf
+        from static_frame.core.type_blocks import TypeBlocks
+        kinds_a = [(ka >> c) & 1 for c in range(3)]       # 0 = int64, 1 = float64
+        kinds_b = [(kb >> c) & 1 for c in range(3)]
+        va = [[1, 2, 3], [4, 5, 6]]
+        vb = [[1, 2, 3], [4, 5, 6]]
+        if diff < 3:
+            vb[1][diff] = 99
+        # a NaN in the last cell of a float column of either side (only where that column is float)
+        la = [[v for v in row] for row in va]
+        lb = [[v for v in row] for row in vb]
+        if nan_a and kinds_a[2]:
+            la[1][2] = env.nan
+        if nan_b and kinds_b[2]:
+            lb[1][2] = env.nan
+        names = ['int64', 'float64']
+
+        def mk(rows, kinds, lay):
+            cols = [[rows[r][c] for r in range(2)] for c in range(3)]
+            tb = TypeBlocks.from_blocks(layouts.build_blocks_typed(env, cols, [names[k] for k in kinds], lay))
+            return sf.Frame(tb, index=[10, 11], columns=['a', 'b', 'c'])
+        a_nan = nan_a and kinds_a[2] == 1
+        b_nan = nan_b and kinds_b[2] == 1
+        cells_equal = True
+        for r in range(2):
+            for c in range(3):
+                x_nan = a_nan and (r, c) == (1, 2)
+                y_nan = b_nan and (r, c) == (1, 2)
+                if x_nan or y_nan:
+                    if not (x_nan and y_nan and skipna):
+                        cells_equal = False
+                elif va[r][c] != vb[r][c]:
+                    cells_equal = False
+        e = cells_equal and ((not compare_dtype) or kinds_a == kinds_b)
+        fb = mk(lb, kinds_b, tuple((1, 1) for _ in range(3)))
+        got = []
+        for lay in _lays_for(kinds_a):
+            fa = mk(la, kinds_a, lay)
+            got.append([env.obs(fa.equals(fb, compare_dtype=compare_dtype, skipna=skipna)), env.obs(fb.equals(fa, compare_dtype=compare_dtype, skipna=skipna))])
+        return got, [[e, e]] * len(got)
+    return rt.untraced(run)
+
+
+_add(Cond('frame_equals_kinds_all_layouts', [('ka', 'int'), ('kbsel', 'int'), ('diff', 'bool'), ('compare_dtype', 'bool'), ('nanmode', 'int'), ('skipna', 'bool')], body_equals_kinds,
+        ranges={'ka': (0, 7), 'kbsel': (0, 2), 'nanmode': (0, 2)}, pre=['nanmode == 0 or ka >= 4', 'nanmode > 0 or skipna'],
+        functions=['Frame.equals', 'TypeBlocks.equals'],
+        bounds='two 2x3 frames; the kind (int64 / float64) of each column of the first symbolic, the second with the same kinds or the first / last column of the other kind, an optional differing cell, NaN on no / the left / both sides, compare_dtype and skipna symbolic; the first frame in EVERY block layout that can hold its kinds',
+        route='Frame.equals(compare_dtype, skipna) in both directions == (cells equal, NaN pairs per skipna) and (dtypes equal unless compare_dtype is off), whatever the block layout', timeout=600))
